@@ -352,10 +352,14 @@ fn ctor_case(v: &mut Verdicts, c: &Value) {
             }
         }
         "arange" => {
-            let (a, b, s) = (e8("a"), e8("b"), e8("s"));
+            let (a, mut b, s) = (e8("a"), e8("b"), e8("s"));
             let exp: Vec<f64> = ints(&c["exp"]).iter().map(|k| *k as f64 / 8.0).collect();
             let span = i("b") - i("a");
-            let class = if span <= 0 { "empty-span" } else if span % i("s") == 0 { "integer-ratio" } else { "noninteger-ratio" };
+            let above = c["above"].as_bool().unwrap_or(false);
+            // stop just above b: by 2^-40 of the larger of |b| and the step (far above the rounding of the ratio, far below a step)
+            if above { b += b.abs().max(s) * 2f64.powi(-40); }
+            let class = if above { if span < 0 { "stop-just-above empty" } else if span % i("s") == 0 { "stop-just-above-grid-point" } else { "stop-just-above noninteger-ratio" } }
+                        else if span <= 0 { "empty-span" } else if span % i("s") == 0 { "integer-ratio" } else { "noninteger-ratio" };
             match guard(|| arange(a, b, s).to_vec()) {
                 Some(g) => (all_eq(&g, &exp), class.into(), fjs(&g)),
                 None => (false, class.into(), json!("panic")),
